@@ -68,7 +68,7 @@ prop('C05', ['F1', 'F14', 'F2', 'F3', 'F4', 'F11', 'W2', 'K3', 'M7', 'P1', 'P4',
      '(M2, M3).',
      ['argument identity', 'functor laws'])
 
-prop('C06', ['H1', 'H4', 'H2', 'H3', 'P5'],
+prop('C06', ['H1', 'H4', 'H2', 'H3', 'P5', 'H5'],
      'Equality and hash: every value that feeds HashCombine is compared strictly by EqualTo (H1); '
      'Python objects enter the hash through their Python hash, never their address (H4); '
      'EqualTo strictly compares size, none_is_leaf and per node kind / arity / registration / '
@@ -76,7 +76,7 @@ prop('C06', ['H1', 'H4', 'H2', 'H3', 'P5'],
      'bindings map to the right relation and strictness (H3).',
      ['equality semantics across construction routes'])
 
-prop('C07', ['P1', 'P2cxx', 'P2py', 'P3', 'P4', 'W1', 'H3', 'F12', 'F13', 'K3', 'M7', 'P5'],
+prop('C07', ['P1', 'P2cxx', 'P2py', 'P3', 'P4', 'W1', 'H3', 'F12', 'F13', 'K3', 'M7', 'P5', 'H5'],
      'Prefix matching: per kind, the attributes compared by IsPrefix, FlattenUpTo, the broadcast '
      'walker and prefix_errors equal the reference table of the property statement (P1); '
      'structural mismatch raises ValueError only, prefix_errors constructs only ValueError, sorts '
@@ -101,7 +101,7 @@ prop('C08', ['I3', 'M5', 'M5b', 'M6', 'F9', 'F12', 'W3', 'T6', 'K1', 'K3', 'M7',
      'constructor enumerates children, keys and metadata exactly like flatten (K3, M7, M1).',
      ['count identities', 'transform/compose algebra', 'repr text'])
 
-prop('C09', ['M4', 'M5b', 'P1', 'P4', 'K4', 'F1', 'F14', 'F2', 'F11', 'F13', 'M2', 'P5'],
+prop('C09', ['M4', 'M5b', 'P1', 'P4', 'K4', 'F1', 'F14', 'F2', 'F11', 'F13', 'M2', 'P5', 'H5'],
      'Broadcasting, structural part: the merge walker copies every payload field of a node (M4); '
      'the result namespace comes from both operands (M5b); '
      'its kind x kind compatibility equals the prefix matchers\' (P1) and dict children are paired '
